@@ -425,3 +425,221 @@ func (n *Net) startRoundOne(i int, h int64) bool {
 	}
 	return false
 }
+
+// RecipeLockAttack is the classical attack on the locking rule: two correct
+// nodes A1, A2 lock and precommit B in round r; together with the faulty
+// precommits A1 decides B, while A2 and the third correct node A3 never see
+// those precommits and move to round r+1, where the faulty validators push a
+// competing block B'.  With correct locking A2 prevotes B and B' cannot get a
+// polka; if a locked node can be made to prevote B', the others decide B' and
+// the agreement monitor sees a fork.
+func (n *Net) RecipeLockAttack() string {
+	if len(n.Faulty) == 0 || len(n.Order) < 3 {
+		return "n/a"
+	}
+	lo, hi := n.MinMaxHeight()
+	if lo != hi {
+		return "heights-differ"
+	}
+	h := hi
+	if !n.startRound(h) {
+		return "cannot-start-round"
+	}
+	perm := n.R.Perm(len(n.Order))
+	a1, a2 := n.Order[perm[0]], n.Order[perm[1]]
+	var others []int
+	for _, i := range n.Order {
+		if i != a1 && i != a2 {
+			others = append(others, i)
+		}
+	}
+	lockers := []int{a1, a2}
+	round := n.Nodes[a1].CS.GetRoundState().Round
+	for _, i := range n.Order {
+		if n.Nodes[i].CS.GetRoundState().Round != round {
+			return "rounds-differ"
+		}
+	}
+	prop := n.ProposerAt(n.Nodes[a1], round)
+	if n.IsFaulty[prop] {
+		kb := n.ByzBlock(n.Nodes[a1], prop, round, 11, "")
+		if kb == nil {
+			return "byz-cannot-build"
+		}
+		msgs := n.ProposalMsgs(prop, kb, h, round, -1)
+		for _, i := range n.Order {
+			n.Send(prop, i, msgs...)
+		}
+	}
+	n.DeliverWhere(3000, func(e *Envelope) bool { return isProposalOrPart(e) })
+	rs1 := n.Nodes[a1].CS.GetRoundState()
+	if rs1.ProposalBlock == nil {
+		return "no-proposal-block"
+	}
+	bid := types.BlockID{Hash: rs1.ProposalBlock.Hash(), PartSetHeader: rs1.ProposalBlockParts.Header()}
+	vals := rs1.Validators
+	now := time.Now()
+	// faulty prevote B to the lockers, nil to the others
+	for _, g := range n.Faulty {
+		if n.ValIndex(vals, g) < 0 {
+			continue
+		}
+		vb := n.SignVote(vals, g, tmproto.PrevoteType, h, round, bid, now)
+		vn := n.SignVote(vals, g, tmproto.PrevoteType, h, round, types.BlockID{}, now)
+		for _, i := range lockers {
+			n.Send(g, i, &cs.VoteMessage{Vote: vb})
+		}
+		for _, i := range others {
+			n.Send(g, i, &cs.VoteMessage{Vote: vn})
+		}
+	}
+	// lockers see every prevote -> polka -> lock + precommit B
+	n.DeliverWhere(4000, func(e *Envelope) bool {
+		v, ok := isVote(e, tmproto.PrevoteType)
+		return ok && in(lockers, e.To) && v.Height == h && v.Round == round
+	})
+	for _, i := range lockers {
+		if n.Nodes[i].CS.GetRoundState().LockedBlock == nil {
+			return "lockers-not-locked"
+		}
+	}
+	// a1 alone gets the lockers' and the faulty precommits for B -> decides B
+	for _, g := range n.Faulty {
+		if n.ValIndex(vals, g) < 0 {
+			continue
+		}
+		n.Send(g, a1, &cs.VoteMessage{Vote: n.SignVote(vals, g, tmproto.PrecommitType, h, round, bid, now)})
+	}
+	n.DeliverWhere(4000, func(e *Envelope) bool {
+		v, ok := isVote(e, tmproto.PrecommitType)
+		return ok && e.To == a1 && v.Height == h && v.Round == round && (in(lockers, e.From) || n.IsFaulty[e.From])
+	})
+	decided := n.Nodes[a1].Blocks.Height() >= h
+	// the rest of the network never sees those precommits: drop what is in flight for round `round`
+	rest := append([]int{a2}, others...)
+	keep := n.InFlight[:0]
+	for _, e := range n.InFlight {
+		if vm, ok := e.Msg.(*cs.VoteMessage); ok && vm.Vote.Height == h && vm.Vote.Round == round && vm.Vote.Type == tmproto.PrecommitType && e.From == a1 {
+			continue
+		}
+		keep = append(keep, e)
+	}
+	n.InFlight = keep
+	// others: 2/3-any prevotes without a polka -> prevote wait -> precommit nil
+	n.DeliverWhere(4000, func(e *Envelope) bool {
+		v, ok := isVote(e, tmproto.PrevoteType)
+		if !ok || !in(others, e.To) || v.Height != h || v.Round != round {
+			return false
+		}
+		return n.IsFaulty[e.From] || in(others, e.From) || e.From == a2
+	})
+	for _, i := range others {
+		rs := n.Nodes[i].CS.GetRoundState()
+		if rs.Height == h && rs.Round == round && (rs.Step == cstypes.RoundStepPrevoteWait || rs.Step == cstypes.RoundStepPrevote) {
+			n.FireTimeout(i)
+		}
+	}
+	// faulty nil precommits to the rest; rest exchange their precommits (a2: B, others: nil) -> 2/3 any -> next round
+	for _, g := range n.Faulty {
+		if n.ValIndex(vals, g) < 0 {
+			continue
+		}
+		vn := n.SignVote(vals, g, tmproto.PrecommitType, h, round, types.BlockID{}, now)
+		for _, i := range rest {
+			n.Send(g, i, &cs.VoteMessage{Vote: vn})
+		}
+	}
+	// a2's precommit for B may be seen by the others (it is not enough for a commit)
+	n.DeliverWhere(4000, func(e *Envelope) bool {
+		v, ok := isVote(e, tmproto.PrecommitType)
+		return ok && in(rest, e.To) && v.Height == h && v.Round == round && (in(rest, e.From) || n.IsFaulty[e.From])
+	})
+	for _, i := range rest {
+		rs := n.Nodes[i].CS.GetRoundState()
+		if t, p := n.Nodes[i].Ticker.Pending(); p && rs.Height == h && rs.Round == round && t.Height == h && t.Round == round && t.Step == cstypes.RoundStepPrecommitWait {
+			n.FireTimeout(i)
+		}
+	}
+	for _, i := range rest {
+		rs := n.Nodes[i].CS.GetRoundState()
+		if rs.Height != h || rs.Round != round+1 {
+			if decided {
+				return "a1-decided;no-next-round"
+			}
+			return "no-next-round"
+		}
+	}
+	// rounds r+1 .. r+4: whenever a faulty validator or an unlocked correct node proposes, push its block B'
+	for att := 0; att < 4; att++ {
+		round++
+		ok := true
+		for _, i := range rest {
+			rs := n.Nodes[i].CS.GetRoundState()
+			if rs.Height != h || rs.Round != round {
+				ok = false
+			}
+		}
+		if !ok {
+			break
+		}
+		for _, i := range rest {
+			n.startRoundOne(i, h)
+		}
+		prop2 := n.ProposerAt(n.Nodes[rest[0]], round)
+		if n.IsFaulty[prop2] {
+			if kb := n.ByzBlock(n.Nodes[others[0]], prop2, round, 13+att, ""); kb != nil {
+				msgs := n.ProposalMsgs(prop2, kb, h, round, -1)
+				for _, i := range rest {
+					n.Send(prop2, i, msgs...)
+				}
+			}
+		}
+		n.DeliverWhere(3000, func(e *Envelope) bool { return isProposalOrPart(e) && in(rest, e.To) })
+		rs2 := n.Nodes[others[0]].CS.GetRoundState()
+		if rs2.ProposalBlock != nil && string(rs2.ProposalBlock.Hash()) != string(bid.Hash) {
+			bid2 := types.BlockID{Hash: rs2.ProposalBlock.Hash(), PartSetHeader: rs2.ProposalBlockParts.Header()}
+			for _, g := range n.Faulty {
+				if n.ValIndex(rs2.Validators, g) < 0 {
+					continue
+				}
+				for _, i := range rest {
+					n.Send(g, i, &cs.VoteMessage{Vote: n.SignVote(rs2.Validators, g, tmproto.PrevoteType, h, round, bid2, now)})
+					n.Send(g, i, &cs.VoteMessage{Vote: n.SignVote(rs2.Validators, g, tmproto.PrecommitType, h, round, bid2, now)})
+				}
+			}
+		} else {
+			// nothing to push this round: the faulty validators vote nil so the round can pass
+			for _, g := range n.Faulty {
+				if n.ValIndex(rs2.Validators, g) < 0 {
+					continue
+				}
+				for _, i := range rest {
+					n.Send(g, i, &cs.VoteMessage{Vote: n.SignVote(rs2.Validators, g, tmproto.PrevoteType, h, round, types.BlockID{}, now)})
+					n.Send(g, i, &cs.VoteMessage{Vote: n.SignVote(rs2.Validators, g, tmproto.PrecommitType, h, round, types.BlockID{}, now)})
+				}
+			}
+		}
+		for _, i := range rest {
+			rs := n.Nodes[i].CS.GetRoundState()
+			if rs.Height == h && rs.Round == round && rs.Step == cstypes.RoundStepPropose {
+				n.FireTimeout(i)
+			}
+		}
+		for k := 0; k < 3; k++ {
+			n.DeliverWhere(6000, func(e *Envelope) bool {
+				vm, ok := e.Msg.(*cs.VoteMessage)
+				return ok && in(rest, e.To) && vm.Vote.Height == h && vm.Vote.Round == round && (in(rest, e.From) || n.IsFaulty[e.From])
+			})
+			for _, i := range rest {
+				rs := n.Nodes[i].CS.GetRoundState()
+				if t, p := n.Nodes[i].Ticker.Pending(); p && rs.Height == h && rs.Round == round && t.Round == round && (t.Step == cstypes.RoundStepPrevoteWait || t.Step == cstypes.RoundStepPrecommitWait) {
+					n.FireTimeout(i)
+				}
+			}
+		}
+	}
+	if decided {
+		return "a1-decided-alone"
+	}
+	return "locked-pair"
+}
